@@ -192,6 +192,9 @@ func (sc *SpecCtx) call(x *SExpr) Val {
 		} else {
 			if i == 0 {
 				t = types.Typ[types.Int]
+				if sig.Recv() != nil && types.IsInterface(sig.Recv().Type()) && strings.Contains(kind, ".") {
+					t = sig.Recv().Type() // the receiver of an interface method call-out
+				}
 			} else if i-1 < sig.Params().Len() {
 				t = sig.Params().At(i - 1).Type()
 			} else {
